@@ -171,7 +171,8 @@ CLAIMS["C36"] = {
             "once, forced only if it can decide non-trivially, released exactly once after a decision, and if any hook can release then at least one "
             "released decision is non-trivial (every scheduled tick releases something new).",
     "note": "NOT covered: the keyed hooks (KeyedStreamHook, KeyedSingletonHook, KeyedStreamOrderHook, KeyedMergeOrderedHook, PartiallyOrderedStreamHook and "
-            "their TopLevel variants) own FxHashMaps (hashbrown, outside CBMC's reach); the scheduler loop around run_hooks and SimBuilder wiring; the "
+            "their TopLevel variants) own FxHashMaps (hashbrown, outside CBMC's reach: a KeyedStreamHook harness with ONE concrete key and two queued items "
+            "exceeded 1500 s); the scheduler loop around run_hooks and SimBuilder wiring; the "
             "log-formatting branches (log_writer is None). The output channel is a CONTRACT DOUBLE of dfir_rs::util::unsync::mpsc (try_send appends and "
             "returns Ok) because the real channel is outside CBMC's reach (C16). Bounds: queue length <= 3 (<= 2 per input for merges), <= 3 hooks; "
             "quick leaves out the three MergeOrderedHook harnesses with two non-empty inputs (3-4 min each), which are in thorough; TopLevelFoldHook with 2 queued items "
